@@ -492,6 +492,19 @@ class Ctx:
                 ok = False
                 self.violation("axiom:" + n, "theorem %s depends on non-whitelisted axioms %s" % (n, bad),
                                dict(kind="axiom", theorem=n, axioms=axs), found_input=False)
+        if self.thorough() and os.environ.get("VERIF_NO_COQCHK") != "1":
+            rc2, out2 = sh(["coqchk", "-silent", "-o", "-Q", THEORIES, "EmbossV", logical_module], timeout=1800, cwd=COQDIR)
+            m = re.search(r"\* Axioms:\s*(.*?)\n\s*\n", out2, re.S)
+            axs = m.group(1).strip() if m else "<unparsed>"
+            unsafe = [l for l in re.findall(r"\* (Constants/Inductives relying on [^:]+|Inductives whose positivity is assumed): (.*)", out2)
+                      if l[1].strip() != "<none>"]
+            good = rc2 == 0 and axs == "<none>" and not unsafe
+            self.obligation("coqchk -o %s: independent re-check of the compiled closure; axioms: %s" % (logical_module, axs), good)
+            self.extra.setdefault("coqchk", {})[logical_module] = {"rc": rc2, "axioms": axs, "unsafe": unsafe}
+            if not good:
+                ok = False
+                self.violation("coqchk:" + logical_module, "coqchk did not accept %s cleanly (rc %d, axioms %s)" % (logical_module, rc2, axs),
+                               dict(kind="proof", module=logical_module, log=out2[-3000:]), found_input=False)
         if len(names) < expect_min:
             ok = False
             self.violation("theorems-missing:" + relpath, "expected at least %d theorems in %s, found %d"
